@@ -7,34 +7,6 @@ from gen_lp import *
 from solve_common import *
 
 
-def configs(rng, lp, k):
-    n, m = len(lp["cols"]), len(lp["rows"])
-    out = []
-    for i in range(k):
-        e = ENTRIES[i % 4] if i < 4 else rng.choice(ENTRIES)
-        cfg = dict(entry=e, pp=rng.choice(PPRICE), dp=rng.choice(DPRICE), scale=rng.choice([0, 1]),
-                   warm=rng.choice(["none", "none", "kept", "arb"]))
-        if rng.random() < 0.15:
-            cfg["maxit"] = rng.randint(1, 6)
-        if cfg["warm"] == "arb":
-            # arbitrary basis string: exactly m basics among n+m, the rest at a bound
-            idx = list(range(n + m))
-            rng.shuffle(idx)
-            bas = set(idx[:m])
-            def cst(j):
-                lo, up = lp["cols"][j][2], lp["cols"][j][3]
-                opts = ([] if lo == NINF else ["0"]) + ([] if up == INF else ["2"])
-                return rng.choice(opts) if opts else "3"
-            def rst(i_):
-                s_ = lp["rows"][i_][1]
-                return rng.choice("02") if s_ == "R" else "0"
-            cs = "".join("1" if j in bas else cst(j) for j in range(n))
-            rs = "".join("1" if (n + i_) in bas else rst(i_) for i_ in range(m))
-            cfg["basis"] = (cs or "-", rs or "-")
-        out.append(cfg)
-    return out
-
-
 def main():
     ck = Check("C01", "proof")
     build_repo()
